@@ -15,7 +15,7 @@ RULE = ("models covering every member type (constitutive / unimolecular / bimole
 ASSUMPTIONS = ["shallow copy.copy is not covered (the property speaks of pickles and deep copies)", "observation equality is exact (same code, same seed)"]
 RUN_OPTS = {"batch_size": 4, "timeout_per_case": 120.0}
 MINIMA = {"*": {"model_copies_compared": 150, "independence_checks": 100, "lineage_model_copies": 20, "result_objects_pickled": 100,
-                "lineages_pickled": 5, "min_member_type_count": 10}}
+                "lineages_pickled": 5, "min_member_type_count": 10, "edit_equivalence_checks": 100}}
 
 MEMBERS = ["ConstitutivePropensity", "UnimolecularPropensity", "BimolecularPropensity", "MassActionPropensity", "PositiveHillPropensity",
            "NegativeHillPropensity", "PositiveProportionalHillPropensity", "NegativeProportionalHillPropensity", "GeneralPropensity",
@@ -85,7 +85,10 @@ def generate(tier, seed):
         c = {"kind": kind, "spec": sp, "route": rnd.choice(["pickle2", "pickle3", "pickle4", "pickle5", "deepcopy", "deepcopy"]),
              "when": rnd.choice(["fresh", "uninitialised", "after_simulation", "after_edit"]), "depth": rnd.choice([1, 1, 2, 3]),
              "states": [{s: float(rnd.randint(0, 7)) if rnd.random() < 0.6 else float("%.4g" % rnd.uniform(0, 9)) for s in sp["species"]} for _ in range(4)],
-             "seed": rnd.getrandbits(30) + 1}
+             "seed": rnd.getrandbits(30) + 1,
+             # the same edits applied to the original and to the copy afterwards: they must still agree
+             "edits": [rnd.choice(["param", "rxn_named", "rxn_numeric", "rxn_hill_numeric", "rule_newparam", "set_existing", "rxn_general", "rxn_new_species"])
+                       for _ in range(rnd.randint(1, 4))]}
         if kind == "lineage":
             c["lin"] = {"growth": rnd.choice(["rule_linear", "rule_multiplicative", "rule_ode", "rule_assignment", "event_linear", "event_multiplicative", "event_general"]),
                         "division": rnd.choice(["time", "volume", "deltaV", "general", "event"]),
@@ -125,7 +128,10 @@ def add_lineage_parts(M, lin, species):
     elif g == "event_linear":
         M.create_volume_event("linear volume", {"growth_rate": 0.1}, "massaction", {"k": 8.0, "species": ""})
     elif g == "event_multiplicative":
-        M.create_volume_event("multiplicative volume", {"growth_rate": 0.08}, "massaction", {"k": 9.0, "species": ""})
+        # a constant-rate (general) propensity: a constitutive mass-action event rate scales with the volume, and
+        # "rate proportional to V, each event multiplies V" is dV/dt ~ V^2 - the volume reaches infinity in finite time
+        # and the lineage simulator never returns
+        M.create_volume_event("multiplicative volume", {"growth_rate": 0.08}, "general", {"rate": "9.0"})
     else:
         M.create_volume_event("general volume", {"equation": "volume + 0.1"}, "massaction", {"k": 8.0, "species": ""})
     d = lin["division"]
@@ -167,7 +173,7 @@ def run_case(case):
     from bioscrape.simulator import py_simulate_model
     import bioscrape.random as brandom
     C = Counter()
-    viol = []
+    viol = util.ViolList()
     lineage = case["kind"] == "lineage"
     tp = 0.125 * np.arange(17)
     kindtag = "lineage-model" if lineage else "model"
@@ -222,6 +228,62 @@ def run_case(case):
     except Exception as e:
         bad("observation-raises", "observing original/copy raised %r" % (e,))
         return {"viol": viol, "counters": dict(C), "nontrivial": True}
+    # the same further edits on both sides: a copy is a full substitute for the original, also as a starting point for
+    # more model building (new parameters / reactions / rules get fresh slots, existing values stay what they were)
+    def apply_edits(X):
+        for j, e in enumerate(case.get("edits", [])):
+            if e == "param":
+                X.create_parameter("zz_new%d" % j, 7.5 + j)
+            elif e == "rxn_named":
+                X.create_reaction(["A"], ["B"], "massaction", {"k": "k_added%d" % j})
+                X.set_parameter("k_added%d" % j, 0.3 + 0.1 * j)
+            elif e == "rxn_numeric":
+                X.create_reaction(["B"], ["A"], "massaction", {"k": 0.21 + 0.01 * j})
+            elif e == "rxn_hill_numeric":
+                X.create_reaction([], ["A"], "hillpositive", {"k": 1.1 + j, "K": 2.5, "n": 2, "s1": "B"})
+            elif e == "rule_newparam":
+                X.create_parameter("c_new%d" % j, 1.25 + j)
+                X._add_species("Qn%d" % j)
+                X.create_rule("assignment", {"equation": "Qn%d = c_new%d * A + 1" % (j, j)})
+            elif e == "rxn_new_species":
+                X.create_reaction(["A"], ["Zn%d" % j], "massaction", {"k": "k_z%d" % j})
+                X.set_parameter("k_z%d" % j, 0.15)
+            elif e == "rxn_general":
+                X.create_parameter("gg%d" % j, 0.4 + j)
+                X.create_reaction([], ["B"], "general", {"rate": "gg%d * A / (1 + A)" % j})
+            else:
+                X.set_parameter("g1", 2.125 + j)
+        X.py_initialize()
+
+    if case.get("edits"):
+        pm_before = {k: float(v) for k, v in M.get_parameter_dictionary().items()}
+        try:
+            apply_edits(M)
+            try:
+                apply_edits(D)
+            except Exception as e:
+                bad("edited-copy-raises", "edits %r that the original accepts raise on the copy: %r" % (case["edits"], e))
+                return {"viol": viol, "counters": dict(C), "nontrivial": True}
+        except Exception as e:
+            return {"error": "edit script raised on the original: %r" % (e,)}
+        C["edit_equivalence_checks"] += 1
+        pm_after = {k: float(v) for k, v in D.get_parameter_dictionary().items()}
+        for k, v in pm_before.items():
+            if k != "g1" and pm_after.get(k) != v and not any(r[0] in ("assignment", "additive") and k in str(r[1]) for r in M.get_rules()):
+                bad("edited-copy-differs:params", "after edits %r the copy's parameter %s is %r (was %r)" % (case["edits"], k, pm_after.get(k), v))
+                break
+        try:
+            ok, path = observe.same(observe.static(M, case["states"]), observe.static(D, case["states"]))
+            if not ok:
+                bad("edited-copy-differs:" + path.split("/")[0], "after the same edits %r copy and original differ at %s" % (case["edits"], path))
+                return {"viol": viol, "counters": dict(C), "nontrivial": True}     # a corrupted copy is not simulated
+            ok, path = observe.same(observe.dynamic(M, case["states"], tp, case["seed"] + 1, lineage=lineage),
+                                    observe.dynamic(D, case["states"], tp, case["seed"] + 1, lineage=lineage))
+            if not ok:
+                bad("edited-copy-behaves-differently:" + path.split("/")[0], "after the same edits %r copy and original behave differently at %s" % (case["edits"], path))
+        except Exception as e:
+            bad("observation-raises", "observing the edited original/copy raised %r" % (e,))
+            return {"viol": viol, "counters": dict(C), "nontrivial": True}
     # independence: edit the copy, the original's record must not move; then the other way round
     for (edited, other, nm) in ((D, M, "copy"), (M, D, "original")):
         before = observe.static(other, case["states"])
@@ -250,7 +312,7 @@ def run_results(case):
     from bioscrape.types import Lineage, ExperimentalLineage, Schnitz
     import bioscrape.random as brandom
     C = Counter()
-    viol = []
+    viol = util.ViolList()
     proto = case["protocol"]
     tp = 0.125 * np.arange(33)
     M = specmod.build_model(case["spec"], "ctor")
